@@ -138,4 +138,20 @@ theorem every_result_reaches_the_incident_logic :
        "if response.Status != protocol.StatusNotFound", "call nc.running.Add(1)",
        "go nc.checkAndSendResponseToModules(response)", "case <-nc.quitChannel", "return"] := by decide
 
+/-- What the response loop hands to the incident logic is exactly the evaluator's answers that ARE
+    evaluations — in order, each once: nil answers (vanished groups) and NOTFOUND are dropped, nothing
+    else is.  (The `notifier` stream delivers every result on the channel a real `responseLoop` reads.) -/
+theorem loop_hands_on_every_evaluation (answers : List (Option Status)) :
+    Notifier.delivered answers =
+      answers.filterMap (fun a => match a with
+        | none => none
+        | some .notFound => none
+        | some s => some s) := by
+  induction answers with
+  | nil => rfl
+  | cons a rest ih =>
+    cases a with
+    | none => simpa [Notifier.delivered] using ih
+    | some s => cases s <;> simp [Notifier.delivered, ih]
+
 end Burrow.Props.C14
